@@ -122,6 +122,11 @@ pub struct Case {
     /// `signatures` (0 = no signature travels at all, 1 = the same triple as the flattened form)
     #[serde(default)]
     pub general: Option<u8>,
+    /// another verification at the same time (see `world::Traffic`): 1 = on the other verifier
+    /// thread, interleaved by a seeded schedule at resolver calls and clock reads; 2 = from inside
+    /// this verification's resolver callback. The other message is credential 0 as issued.
+    #[serde(default)]
+    pub traffic: Option<(u8, u64)>,
 }
 
 fn kb_absent() -> KbEnc {
@@ -843,6 +848,13 @@ impl<'a> Exec<'a> {
         }
         seams::log("deliver", s.as_bytes());
         let node = if fmt == Fmt::Compact { self.n_vc } else { self.n_vj };
+        if let Some((mode, seed)) = case.traffic {
+            if let Some((bw, bf)) = self.raw_of(&Base::Cred(0)) {
+                let other = if node == self.n_vc { self.n_vj } else { self.n_vc };
+                self.w.traffic = Some(world::Traffic { mode: if mode == 2 { 2 } else { 1 }, wire: bw, fmt: bf, node: other, seed });
+                self.rep.count(if mode == 2 { "fault.reentrant_verification_from_resolver" } else { "fault.concurrent_verification_interleaved" });
+            }
+        }
         let vo = self.w.verify(node, &s, fmt, case.session.clone(), &case.resolver);
         Some((s, vo))
     }
